@@ -560,6 +560,27 @@ class MailboxWorld:
             fr["side"] = act["v"]
         elif op == "phase":
             fr["phase"] = act["v"]
+        elif op == "flip" and act.get("v") in ("elem", "bad"):
+            # the flipped bits land inside the hex of a PAKE body: another group element / not an element
+            from spake2 import SPAKE2_Symmetric
+            from wormhole.util import dict_to_bytes as d2b
+            import os as _os
+            while True:
+                cand = SPAKE2_Symmetric(b"flipped", idSymmetric=b"x").start() if act["v"] == "elem" else b"S" + _os.urandom(32)
+                probe = SPAKE2_Symmetric(b"probe", idSymmetric=b"x")
+                probe.start()
+                try:
+                    probe.finish(cand)
+                    ok = True
+                except Exception:
+                    ok = False
+                if ok == (act["v"] == "elem"):
+                    break
+            fr["body"] = d2b({"pake_v1": cand.hex()}).hex()
+        elif op == "flip" and act.get("v") == "junk":
+            b = bytearray(bytes.fromhex(fr["body"]))
+            b[0] ^= 0x80                 # no longer UTF-8 / JSON
+            fr["body"] = bytes(b).hex()
         elif op == "flip":
             b = bytearray(bytes.fromhex(fr["body"]))
             pos = act.get("pos", len(b) // 2) % max(1, len(b))
